@@ -238,22 +238,64 @@ func (wp *workerProc) ask(cmd, kind string, timeout time.Duration) ([]string, bo
 // ---------------------------------------------------------------------------
 // clients
 
+// tapConn records every byte the client reads from the socket once switched on
+// (at the start of a StartTLS handshake): the wiretap of C13.
+type tapConn struct {
+	net.Conn
+	mu  sync.Mutex
+	on  bool
+	rec []byte
+}
+
+func (t *tapConn) Read(p []byte) (int, error) {
+	n, err := t.Conn.Read(p)
+	t.mu.Lock()
+	if t.on {
+		t.rec = append(t.rec, p[:n]...)
+	}
+	t.mu.Unlock()
+	return n, err
+}
+
+// tlsOnly: is everything recorded a sequence of TLS records (a trailing partial record is fine)?
+func (t *tapConn) tlsOnly() bool {
+	t.mu.Lock()
+	defer t.mu.Unlock()
+	b := t.rec
+	for len(b) >= 5 {
+		if b[0] < 20 || b[0] > 23 || b[1] != 3 || b[2] > 4 {
+			return false
+		}
+		l := int(b[3])<<8 | int(b[4])
+		if l > 16384+2048 {
+			return false
+		}
+		if len(b) < 5+l {
+			return true
+		}
+		b = b[5+l:]
+	}
+	return len(b) == 0 || (b[0] >= 20 && b[0] <= 23)
+}
+
 type lifeClient struct {
-	mu          sync.Mutex
-	raw         net.Conn
-	rw          io.ReadWriter // raw or the TLS connection after an upgrade
-	tlsConn     *tls.Conn
-	eof         bool
-	stalled     bool
-	upgrading   bool // a TLS handshake owns the socket: the reader must stay away
-	parked      bool
-	closedBy    bool // the scenario closed it from the client side
-	recv        int
-	stream      []byte // bytes read and not yet parsed into whole LDAPMessages
-	frames      int    // whole LDAPMessages received
-	everStalled bool
-	bulk        bool // a handler on this connection writes until it blocks: the count is not predicted
-	cond        *sync.Cond
+	tap           *tapConn
+	mu            sync.Mutex
+	raw           net.Conn
+	rw            io.ReadWriter // raw or the TLS connection after an upgrade
+	tlsConn       *tls.Conn
+	eof           bool
+	stalled       bool
+	upgrading     bool // a TLS handshake owns the socket: the reader must stay away
+	parked        bool
+	closedBy      bool // the scenario closed it from the client side
+	recv          int
+	stream        []byte // bytes read and not yet parsed into whole LDAPMessages
+	frames        int    // whole LDAPMessages received
+	everStalled   bool
+	pendingAccept bool // connected while Run is parked after Accept: the server has no record of it yet
+	bulk          bool // a handler on this connection writes until it blocks: the count is not predicted
+	cond          *sync.Cond
 }
 
 func (c *lifeClient) reader() {
@@ -319,6 +361,7 @@ type lifeRun struct {
 	runState   string
 	cliTLS     *tls.Config
 	stopCalled bool
+	parked     bool
 }
 
 func (lr *lifeRun) execOp(t *Toks) error {
@@ -336,7 +379,8 @@ func (lr *lifeRun) execOp(t *Toks) error {
 		if err != nil {
 			return fmt.Errorf("connect refused: %v", err)
 		}
-		lc := &lifeClient{raw: c, rw: c}
+		tap := &tapConn{Conn: c}
+		lc := &lifeClient{raw: tap, rw: tap, tap: tap, pendingAccept: lr.parked}
 		lc.cond = sync.NewCond(&lc.mu)
 		lr.clients = append(lr.clients, lc)
 		go lc.reader()
@@ -365,7 +409,7 @@ func (lr *lifeRun) execOp(t *Toks) error {
 			lc.closedBy = true
 			lc.cond.Broadcast()
 			lc.mu.Unlock()
-			if tc, ok := lc.raw.(*net.TCPConn); ok {
+			if tc, ok := lc.tap.Conn.(*net.TCPConn); ok {
 				_ = tc.SetLinger(0)
 			}
 			_ = lc.raw.Close()
@@ -383,7 +427,8 @@ func (lr *lifeRun) execOp(t *Toks) error {
 		if err != nil {
 			return fmt.Errorf("connect refused: %v", err)
 		}
-		lc := &lifeClient{raw: c, rw: c}
+		tap := &tapConn{Conn: c}
+		lc := &lifeClient{raw: tap, rw: tap, tap: tap, pendingAccept: lr.parked}
 		lc.cond = sync.NewCond(&lc.mu)
 		lr.clients = append(lr.clients, lc)
 		go lc.reader()
@@ -447,6 +492,9 @@ func (lr *lifeRun) execOp(t *Toks) error {
 		}
 		if hello {
 			lc.park()
+			lc.tap.mu.Lock()
+			lc.tap.on = true // from here on every byte from the server must be inside a TLS record
+			lc.tap.mu.Unlock()
 			tc := tls.Client(lc.raw, lr.cliTLS)
 			go func() {
 				err := tc.Handshake()
@@ -479,6 +527,26 @@ func (lr *lifeRun) execOp(t *Toks) error {
 		}
 		lc.cond.Broadcast()
 		lc.mu.Unlock()
+	case "parkaccept":
+		// hold the Run goroutine between Accept and newConn (the worker's logger blocks on the
+		// "new connection accepted" line), or let it go on
+		if t.Bool() {
+			lr.parked = true
+			if _, ok := lr.wp.ask("logpark new connection accepted", "logpark", 3*time.Second); !ok {
+				return fmt.Errorf("logpark not acknowledged")
+			}
+		} else {
+			lr.parked = false
+			for _, lc := range lr.clients {
+				lc.mu.Lock()
+				lc.pendingAccept = false
+				lc.mu.Unlock()
+			}
+			lr.wp.ask("logrelease", "logpark", 3*time.Second)
+		}
+	case "sleep":
+		ms, _ := strconv.Atoi(t.Next())
+		time.Sleep(time.Duration(ms) * time.Millisecond)
 	case "release":
 		lr.wp.send("release " + t.Next())
 	case "holdonclose":
@@ -553,6 +621,12 @@ func (lr *lifeRun) realSnapshot(probePort bool, modelPort string) string {
 	}
 	var parts []string
 	for i, lc := range lr.clients {
+		lc.mu.Lock()
+		pend := lc.pendingAccept
+		lc.mu.Unlock()
+		if pend {
+			continue
+		}
 		cid, known := connOfClient[i]
 		if !known {
 			cid = i + 1 // accept order; confirmed by message ids whenever a handler ran
@@ -578,6 +652,9 @@ func (lr *lifeRun) realSnapshot(probePort bool, modelPort string) string {
 		}
 		rx := lc.frames
 		lc.mu.Unlock()
+		if lc.tap != nil && !lc.tap.tlsOnly() {
+			closed += ",wire=plaintext-after-upgrade"
+		}
 		parts = append(parts, fmt.Sprintf("c%d:id=%d,started=[%s],ended=[%s],closed=%s,onclose=%d,rx=%d", i, cid,
 			strings.Join(st.started, ";"), strings.Join(es, ";"), closed, st.onclose, rx))
 	}
@@ -647,7 +724,7 @@ func runLife(t *Toks) string {
 		switch p[0] {
 		case "recovery", "onclose", "unbind":
 			opts = append(opts, kv)
-		case "tls", "addr", "readtimeout", "dflt":
+		case "tls", "addr", "readtimeout", "dflt", "stopdelay":
 			opts = append(opts, kv)
 		case "race":
 			race = p[1] == "1"
@@ -662,6 +739,7 @@ func runLife(t *Toks) string {
 		limit = time.Duration(ms) * time.Millisecond
 	}
 	grace := 120 * time.Millisecond
+	divergedAt := -1
 	wp, err := startWorker(strings.Join(opts, " "), race)
 	if err != nil {
 		return "HARNESS-ERROR " + err.Error()
@@ -694,7 +772,9 @@ func runLife(t *Toks) string {
 		if strings.Contains(w, "port=1") {
 			modelPort = "1"
 		}
-		probe := strings.Contains(w, "run=ok") || strings.Contains(w, "run=err") || strings.Contains(w, "run=none")
+		// (in the race build the port is not probed: opening and closing descriptors in the worker
+		// synchronises goroutines through the runtime's poller annotations and hides races)
+		probe := !race && (strings.Contains(w, "run=ok") || strings.Contains(w, "run=err") || strings.Contains(w, "run=none"))
 		deadline := time.Now().Add(limit)
 		var real string
 		matched := false
@@ -718,8 +798,16 @@ func runLife(t *Toks) string {
 		}
 		got = append(got, real)
 		if !matched {
-			return "DIVERGE " + strconv.Itoa(k) + " " + strings.Join(got, " # ")
+			if divergedAt < 0 {
+				divergedAt = k
+			}
+			// keep going, with a short wait per operation: the spec predicates judge what the
+			// real server does later in the scenario as well
+			limit = 700 * time.Millisecond
 		}
+	}
+	if divergedAt >= 0 {
+		return "DIVERGE " + strconv.Itoa(divergedAt) + " " + strings.Join(got, " # ")
 	}
 	if race {
 		if d := raceDigest(wp.finish()); d != "" {
